@@ -983,6 +983,7 @@ func (w *tsWorld) exec(r *hx.Run, f []string) string {
 type world struct {
 	tv *tvWorld
 	ts *tsWorld
+	tp *tpWorld
 }
 
 func (w *world) exec(r *hx.Run, line string) string {
@@ -997,6 +998,12 @@ func (w *world) exec(r *hx.Run, line string) string {
 		}
 
 		return w.tv.exec(r, f[1:])
+	case "tp":
+		if w.tp == nil {
+			w.tp = newTPWorld()
+		}
+
+		return w.tp.exec(r, f[1:])
 	case "ts":
 		if w.ts == nil {
 			w.ts = newTSWorld()
@@ -1011,7 +1018,7 @@ func (w *world) exec(r *hx.Run, line string) string {
 // faultTok returns the fault token of an op line with positions stripped ("dec@3+4" -> "dec@").
 func faultTok(f []string) (string, bool) {
 	switch f[1] {
-	case "init", "reopen", "rawset", "rawdel":
+	case "init", "reopen", "rawset", "rawdel", "mut":
 		return "", false
 	}
 	ft := f[len(f)-1]
@@ -1085,6 +1092,12 @@ func main() {
 	for _, c := range exhaustiveTS() {
 		runCase(r, 0, c)
 	}
+	for _, c := range corpusTP() {
+		runCase(r, 0, c)
+	}
+	for _, c := range exhaustiveTP() {
+		runCase(r, 0, c)
+	}
 	nTV, nTS := 6000*r.Scale, 2500*r.Scale
 	for i := 0; i < nTV; i++ {
 		rng, sub := r.Rng.Fork()
@@ -1093,6 +1106,10 @@ func main() {
 	for i := 0; i < nTS; i++ {
 		rng, sub := r.Rng.Fork()
 		runCase(r, sub, genTS(rng))
+	}
+	for i := 0; i < 2500*r.Scale; i++ {
+		rng, sub := r.Rng.Fork()
+		runCase(r, sub, genTP(rng))
 	}
 	concPart(r)
 	r.Finish()
